@@ -336,3 +336,21 @@ PROPS["C09"] = {
     "quick": [rapid("survive", "^TestPropSurvive$", 400, shards=4)],
     "thorough": [rapid("survive", "^TestPropSurvive$", 5000, shards=12)],
 }
+
+PROPS["C10"] = {
+    "pkg": "c10",
+    "level": "exploration",
+    "rule": ("rapid draws 1-3 packages connected by dependencies; the fetcher plants up to 5 hazards per package from 37: relative and absolute "
+             "links inside the package, to the bundle root ('..', '{fetch dir}/..'), to a sibling package directory (found by listing the "
+             "parent), to the future manifest, out of the bundle (relative and absolute, to files, directories and a fifo), chains (in and "
+             "out), dangling links, self loops, links whose target a rule deletes (sorting before and after the target), links that a rule "
+             "deletes, links to directories matched by directory rules, fifos and sockets (also below ignored directories); rule files from "
+             "15 lines incl. negations. Oracle: the arena outside the target is unchanged; if the build succeeds every entry of every "
+             "package directory is a regular file, a directory, or a link that physically resolves to an existing regular file/directory "
+             "inside that package directory, no file the reference ignore matcher excludes remains, no .tmp-* directory is left; a hazard "
+             "that is definitely illegal (special file, out-of-bundle/climbing/dangling link) and not ignored, in a reachable package, must "
+             "make an Add call fail. Non-trivial = a planted link or special file; distinct by case hash."),
+    "assumptions": ["builds failing for stricter reasons (checksum refuses links to directories or dangling links) are fine"],
+    "quick": [rapid("sanitised", "^TestPropSanitised$", 1200, shards=4)],
+    "thorough": [rapid("sanitised", "^TestPropSanitised$", 15000, shards=12)],
+}
